@@ -64,8 +64,10 @@ def case_of_event(e):
 
 def describe(e, t):
     cls, a = t[3], t[4]
+    if e["op"] == "PlmnRow" and (e["panic"] or e["hang"] or not e["octs"]):
+        return "SetPlmnDigit (%s) row %s=%d x %s: panic=%s %s %s hang=%s" % (e["which"], e["axis"], e["fixed"], e["vary"][:12], e["panic"], e["fn"], e["kind"], e["hang"])
     if e["op"] == "PlmnRow":
-        i = int(a) - 1
+        i = max(0, min(int(a) - 1, len(e["vary"]) - 1))
         mcc, mnc = (e["fixed"], e["vary"][i]) if e["axis"] == "mcc" else (e["vary"][i], e["fixed"])
         return "SetPlmnDigit(%d, %d) (%s) -> octets %s err=%s, recovered mcc/mnc %s" % (mcc, mnc, e["which"], e["octs"][i], e["errs"][i], e["rt"][i])
     if e["op"] == "Build":
